@@ -19,6 +19,7 @@ from engine.statusmon import Mon
 from rules.c08 import def_of_local
 
 LEVEL = "other"
+THOROUGH_VIEWS = ("lib-copy", "cap=3")   # this module already reads both the library's and the binary's copy where it matters
 PR = "commands::rulegen::print_rules"
 GR = "commands::rulegen::gen_rules"
 
